@@ -6,10 +6,468 @@ Every definition cites the Rust function it transcribes (file + fn) and keeps it
 wrapping arithmetic and its error returns; `Out.trap` / `none`-as-panic results mark what would be a panic of
 the overflow-checked profile, and Props/C01HandAat.lean shows they are never produced.  Tied to the real code
 by harness group `aats.model` (driver commands `ha.*`, Drv/C01HandAat.lean).
+
+(At the verified commit /repo has no kern.rs / kerx.rs / morx.rs / trak.rs; their state machines are the
+`StateTable` / `ExtendedStateTable` of aat.rs modelled here.)
+
+* `StateTable::{read, class, entry}`, `ExtendedStateTable::{read, class, entry}`,
+  `StateEntry::read`                                                     tables/aat.rs
+* `Lookup::read` + `Lookup::value` / `TypedLookup::{read, value}` at BYTE level, for hostile bytes (the
+  binary searches of formats 2 / 4 / 6 are the transcribed `core::slice::binary_search_by` of
+  Model/Layout.lean; Model/HandIter.lean `lookup0 … lookup10` are the same lookups over parsed, sorted
+  fields)                                                                tables/aat.rs
+* `Ankr::anchor_points`                                                  tables/ankr.rs
+* `Feat::find`, `FeatureName::{is_exclusive, default_setting_index}`     tables/feat.rs
+* `Ltag::{tag_indices, index_for_tag}` (with `core::str::from_utf8`)     tables/ltag.rs
+* `PatchMapFormat1::{gid_to_entry_iter, entry_count, is_entry_applied}`, `GidToEntryIter::next`,
+  `FeatureMap::entry_records_size`, `CompatibilityId::from_u32s`, `U8Or16`,
+  `GlyphPatches::glyph_data_for_table`, `GlyphDataIterator::next`        tables/ift.rs
+
+The data of a table is a byte list; the header getters of the generated `TableRef`s
+(`self.data.read_at(range.start).unwrap()`) are `readAt … ` with `none ↦ trap`.
 -/
 import FontVerif.Model.ReadIter
 import FontVerif.Model.HandRead
+import FontVerif.Model.Layout
+import FontVerif.Model.PatchMapDecode
 namespace FontVerif.HandAat
-open FontVerif FontVerif.ReadIter FontVerif.HandRead
+open FontVerif FontVerif.HandRead
+open FontVerif.ReadIter (Out run items trapped)
+
+/-- the `ReadError` values these functions produce -/
+inductive AErr where
+  | oob
+  | null
+  | malformed
+  | badFormat (n : Nat)
+  deriving DecidableEq, Repr
+
+/-- result of a call: a value, an `Err(ReadError)`, or a panic of the overflow-checked profile
+(`unwrap` on `None`, index out of range, unchecked `+` / `*` beyond `usize::MAX`, division by zero) -/
+inductive R (α : Type) where
+  | ok (a : α)
+  | err (e : AErr)
+  | trap
+  deriving Repr, DecidableEq
+
+/-- `Offset16/32::resolve` up to the data handed to `T::read`: `non_null().ok_or(NullOffset)`,
+`data.split_off(off).ok_or(OutOfBounds)` (read-fonts/src/offset.rs `ResolveOffset::resolve`) -/
+def resolveOff (d : List Nat) (off : Nat) : Except AErr (List Nat) :=
+  if off = 0 then .error .null else if off ≤ d.length then .ok (d.drop off) else .error .oob
+
+/-- `x as i32` of a `u32` / `usize` value that came from a `u16` / `u32` field -/
+def asI32 (v : Nat) : Int :=
+  let m := v % 4294967296
+  if m < 2147483648 then (m : Int) else (m : Int) - 4294967296
+
+/-! ## AAT lookup tables at byte level — `Lookup::read`, `LookupN::value::<T>`
+
+`size = T::RAW_BYTE_LEN` (2 for `u16` / `GlyphId16`, 4 for `u32`). -/
+
+/-- index both arms of `match search { Ok(ix) => ix, Err(ix) => ix.saturating_sub(1) }` produce -/
+def bsIx (n : Nat) (cmpAt : Nat → Ordering) : Nat :=
+  match Layout.binarySearchBy n cmpAt with
+  | .ok i => i
+  | .err i => i - 1
+
+/-- `Lookup0::read` (`advance::<u16>()`, the rest is `values_data`) + `Lookup0::value`:
+`n_elems = data_len / size` (division by zero = panic), `&data[..n_elems * size]` (slice index =
+panic when out of range), `read_array(n_elems)?.get(index)` -/
+def lookup0v (d : List Nat) (size g : Nat) : R Nat :=
+  if d.length < 2 then .err .oob else
+  let vals := d.drop 2
+  if size = 0 then .trap else
+  let n := vals.length / size
+  if n * size > vals.length then .trap else
+  if g < n then (match readAt vals (g * size) size with | some v => .ok v | none => .trap)
+  else .err .oob
+
+/-- `Lookup2::read` (`unit_size`, `n_units` by `cursor.read()?`, `segments_data` =
+`add_multiply(unit_size, 0, n_units)` bytes from offset 12) + `Lookup2::value`: `segments::<T>()` =
+`read_array::<LookupSegment2<T>>(n_units)` over `segments_data` (records of `4 + size` bytes whatever
+`unit_size` says; `Err` when they do not fit), binary search on `first_glyph`, `segments.get(ix)`,
+`(first..=last).contains(&index)` -/
+def lookup2v (d : List Nat) (size g : Nat) : R Nat :=
+  match readAt d 2 2 with
+  | none => .err .oob
+  | some unit =>
+    match readAt d 4 2 with
+    | none => .err .oob
+    | some n =>
+      let segLen := unit * n
+      if 12 + segLen ≤ d.length then
+        let seg := (d.drop 12).take segLen
+        let rec_ := 4 + size
+        if n * rec_ ≤ seg.length then
+          let ix := bsIx n (fun i => Layout.natCmp (beAt seg (i * rec_ + 2) 2) g)
+          if ix < n then
+            let last := beAt seg (ix * rec_) 2
+            let first := beAt seg (ix * rec_ + 2) 2
+            if first ≤ g ∧ g ≤ last then
+              (match readAt seg (ix * rec_ + 4) size with | some v => .ok v | none => .trap)
+            else .err .oob
+          else .err .oob
+        else .err .oob
+      else .err .oob
+
+/-- `Lookup4::read` (`n_units` at 4, `n_units * 6` bytes of `LookupSegment4` from offset 12) +
+`Lookup4::value`: binary search on `first_glyph`, `segments.get(ix)`, containment, then
+`offset = value_offset + (index - first) * size` (unchecked `usize` arithmetic) and
+`self.offset_data().read_at(offset)` — relative to the start of the lookup table -/
+def lookup4v (d : List Nat) (size g : Nat) : R Nat :=
+  match readAt d 4 2 with
+  | none => .err .oob
+  | some n =>
+    if 12 + n * 6 ≤ d.length then
+      let ix := bsIx n (fun i => Layout.natCmp (beAt d (12 + i * 6 + 2) 2) g)
+      if ix < n then
+        let last := beAt d (12 + ix * 6) 2
+        let first := beAt d (12 + ix * 6 + 2) 2
+        let off := beAt d (12 + ix * 6 + 4) 2
+        if first ≤ g ∧ g ≤ last then
+          if off + (g - first) * size > MAXU then .trap else
+          (match readAt d (off + (g - first) * size) size with | some v => .ok v | none => .err .oob)
+        else .err .oob
+      else .err .oob
+    else .err .oob
+
+/-- `Lookup6::read` (like format 2) + `Lookup6::value`: `entries::<T>()` =
+`read_array::<LookupSingle<T>>(n_units)` (records of `2 + size` bytes), `binary_search_by_key` on
+`glyph`, `&entries[ix]` (index = panic when out of range) -/
+def lookup6v (d : List Nat) (size g : Nat) : R Nat :=
+  match readAt d 2 2 with
+  | none => .err .oob
+  | some unit =>
+    match readAt d 4 2 with
+    | none => .err .oob
+    | some n =>
+      let entLen := unit * n
+      if 12 + entLen ≤ d.length then
+        let ent := (d.drop 12).take entLen
+        let rec_ := 2 + size
+        if n * rec_ ≤ ent.length then
+          match Layout.binarySearchBy n (fun i => Layout.natCmp (beAt ent (i * rec_) 2) g) with
+          | .ok ix =>
+            if ix < n then
+              (match readAt ent (ix * rec_ + 2) size with | some v => .ok v | none => .trap)
+            else .trap
+          | .err _ => .err .oob
+        else .err .oob
+      else .err .oob
+
+/-- `Lookup8::read` (6 header bytes, then `remaining / 2` values — `glyph_count` is not consulted) +
+`Lookup8::value`: `index.checked_sub(first_glyph)`, `value_array().get(ix)`, `T::from_u16` -/
+def lookup8v (d : List Nat) (g : Nat) : R Nat :=
+  if 6 ≤ d.length then
+    match readAt d 2 2 with
+    | none => .trap
+    | some first =>
+      if g < first then .err .oob
+      else
+        let n := (d.length - 6) / 2
+        if g - first < n then
+          (match readAt d (6 + (g - first) * 2) 2 with | some v => .ok v | none => .trap)
+        else .err .oob
+  else .err .oob
+
+/-- `Lookup10::read` (8 header bytes, the rest is `values_data`) + `Lookup10::value`:
+`index.checked_sub(first_glyph)`, `offset = ix * unit_size` (unchecked), `cursor.advance_by(offset)`,
+a read of 1 / 2 / 4 bytes (any other unit size: `MalformedData`), `T::from_u32` (truncating for
+`size = 2`) -/
+def lookup10v (d : List Nat) (size g : Nat) : R Nat :=
+  if 8 ≤ d.length then
+    match readAt d 2 2, readAt d 4 2 with
+    | some unit, some first =>
+      if g < first then .err .oob
+      else
+        let vals := d.drop 8
+        if (g - first) * unit > MAXU then .trap else
+        if unit = 1 ∨ unit = 2 ∨ unit = 4 then
+          (match readAt vals ((g - first) * unit) unit with
+           | some v => .ok (if size = 2 then v % 65536 else v)
+           | none => .err .oob)
+        else .err .malformed
+    | _, _ => .trap
+  else .err .oob
+
+/-- `Lookup::read(data)?.value::<T>(index)` = `TypedLookup::<T>::read(data)?.value(index)` -/
+def lookupValue (d : List Nat) (size g : Nat) : R Nat :=
+  match readAt d 0 2 with
+  | none => .err .oob
+  | some fmt =>
+    if fmt = 0 then lookup0v d size g
+    else if fmt = 2 then lookup2v d size g
+    else if fmt = 4 then lookup4v d size g
+    else if fmt = 6 then lookup6v d size g
+    else if fmt = 8 then lookup8v d g
+    else if fmt = 10 then lookup10v d size g
+    else .err (.badFormat fmt)
+
+/-! ## legacy state table — `StateTable` -/
+
+/-- `StateTable::read` = `StateHeader::read`: four 16-bit fields -/
+def stRead (d : List Nat) : Bool := decide (8 ≤ d.length)
+
+/-- `ClassSubtable::read`: `first_glyph`, `n_glyphs` (`cursor.read()?`), `n_glyphs` class bytes;
+returns `n_glyphs` -/
+def classSubRead (sub : List Nat) : Except AErr Nat :=
+  match readAt sub 2 2 with
+  | none => .error .oob
+  | some n => if 4 + n ≤ sub.length then .ok n else .error .oob
+
+/-- `StateTable::class(glyph_id)`: `0xFFFF` ↦ `DELETED_GLYPH`; `self.header.class_table()?`;
+`glyph_id.checked_sub(first_glyph)`, `class_array().get(ix)`; `ok (class)` -/
+def stClass (d : List Nat) (g : Nat) : R Nat :=
+  if g = 0xFFFF then .ok 2 else
+  match readAt d 2 2 with
+  | none => .trap
+  | some co =>
+    match resolveOff d co with
+    | .error e => .err e
+    | .ok sub =>
+      match classSubRead sub with
+      | .error e => .err e
+      | .ok n =>
+        match readAt sub 0 2 with
+        | none => .trap
+        | some first =>
+          if g < first then .err .oob
+          else if 4 + n ≤ sub.length then
+            (if g - first < n then
+              (match sub[4 + (g - first)]? with | some c => .ok c | none => .trap)
+             else .err .oob)
+          else .trap
+
+/-- `StateEntry::<T>::read(data)`, `psize = T::RAW_BYTE_LEN`: `new_state`, `flags` (`cursor.read()?`),
+`cursor.remaining()`, `remaining.get(..psize)`, `try_pod_read_unaligned` (the alignment-independent
+copy of /repo 4e41891); `(new_state, flags, payload bytes as a big-endian number)` -/
+def stateEntryRead (e : List Nat) (psize : Nat) : Except AErr (Nat × Nat × Nat) :=
+  match readAt e 0 2 with
+  | none => .error .oob
+  | some ns =>
+    match readAt e 2 2 with
+    | none => .error .oob
+    | some fl =>
+      if 4 ≤ e.length then
+        (if psize ≤ e.length - 4 then .ok (ns, fl, beAt e 4 psize) else .error .oob)
+      else .error .oob
+
+/-- `StateTable::entry(state, class)`: `n_classes = state_size` (0 ↦ `MalformedData`), class clamp to
+`OUT_OF_BOUNDS`, `state_array()?`, index `state.checked_mul(n_classes)? + class` (the `+` is
+unchecked), `entry_offset = entry_ix * 4` (unchecked), `entry_table()?.data().get(entry_offset..)`,
+`StateEntry::read`, and the conversion of the byte offset `new_state` to a row index:
+`(new_state as i32).checked_sub(state_array_offset as i32)? / n_classes as i32` (truncating),
+`try_into::<u16>()`.  `ok (new_state, flags)`. -/
+def stEntry (d : List Nat) (state cls : Nat) : R (Nat × Nat) :=
+  match readAt d 0 2, readAt d 4 2, readAt d 6 2 with
+  | some nc, some ao, some eo =>
+    if nc = 0 then .err .malformed else
+    let cls := if cls ≥ nc then 1 else cls
+    match resolveOff d ao with
+    | .error e => .err e
+    | .ok arr =>
+      match checkedMul state nc with
+      | none => .err .oob
+      | some m =>
+        if m + cls > MAXU then .trap else
+        match arr[m + cls]? with
+        | none => .err .oob
+        | some eix =>
+          if eix * 4 > MAXU then .trap else
+          match resolveOff d eo with
+          | .error e => .err e
+          | .ok ent =>
+            if eix * 4 ≤ ent.length then
+              match stateEntryRead (ent.drop (eix * 4)) 0 with
+              | .error e => .err e
+              | .ok (ns, fl, _) =>
+                let diff : Int := asI32 ns - asI32 ao
+                if diff < -2147483648 ∨ diff > 2147483647 then .err .oob else
+                if asI32 nc = 0 ∨ (diff = -2147483648 ∧ asI32 nc = -1) then .trap else
+                let q := Int.tdiv diff (asI32 nc)
+                if 0 ≤ q ∧ q ≤ 65535 then .ok (q.toNat, fl) else .err .oob
+            else .err .oob
+  | _, _, _ => .trap
+
+/-! ## extended state table — `ExtendedStateTable<T>` -/
+
+/-- `ExtendedStateTable::read` = `StxHeader::read`: four 32-bit fields -/
+def stxRead (d : List Nat) : Bool := decide (16 ≤ d.length)
+
+/-- `ExtendedStateTable::class(glyph_id)`: `0xFFFF` ↦ 2, else
+`self.header.class_table()?.value(glyph_id)` (a `LookupU16`) -/
+def stxClass (d : List Nat) (g : Nat) : R Nat :=
+  if g = 0xFFFF then .ok 2 else
+  match readAt d 4 4 with
+  | none => .trap
+  | some co =>
+    match resolveOff d co with
+    | .error e => .err e
+    | .ok sub => lookupValue sub 2 g
+
+/-- `ExtendedStateTable::<T>::entry(state, class)`, `psize = T::RAW_BYTE_LEN`: class clamp,
+`state_array()?` (`RawWords`: `remaining / 2` big-endian words), `state_ix = state * n_classes + class`
+(unchecked `usize` arithmetic), `entry_offset = entry_ix * (4 + psize)` (unchecked),
+`entry_table()?.data().get(entry_offset..)`, `StateEntry::read`.
+`ok (new_state, flags, payload)`. -/
+def stxEntry (d : List Nat) (psize state cls : Nat) : R (Nat × Nat × Nat) :=
+  match readAt d 0 4, readAt d 8 4, readAt d 12 4 with
+  | some nc, some ao, some eo =>
+    let cls := if cls ≥ nc then 1 else cls
+    match resolveOff d ao with
+    | .error e => .err e
+    | .ok arr =>
+      if state * nc + cls > MAXU then .trap else
+      let ix := state * nc + cls
+      if ix < arr.length / 2 then
+        match readAt arr (2 * ix) 2 with
+        | none => .trap
+        | some eix =>
+          if eix * (4 + psize) > MAXU then .trap else
+          match resolveOff d eo with
+          | .error e => .err e
+          | .ok ent =>
+            if eix * (4 + psize) ≤ ent.length then
+              match stateEntryRead (ent.drop (eix * (4 + psize))) psize with
+              | .error e => .err e
+              | .ok r => .ok r
+            else .err .oob
+      else .err .oob
+  | _, _, _ => .trap
+
+/-! ## `ankr` — `Ankr::anchor_points` -/
+
+/-- `Ankr::read`: version, flags, two 32-bit fields -/
+def ankrRead (d : List Nat) : Bool := decide (12 ≤ d.length)
+
+/-- `Ankr::anchor_points(glyph_id)`: `GlyphId16::try_from`, `lookup_table()?.value(gid)?`,
+`glyph_data_table_offset.checked_add(entry_offset)`, `offset_data().split_off(full)`,
+`GlyphDataEntry::read` (`num_points`, `num_points * 4` bytes).  `ok (byte offset of the first point
+in the table, number of points)`. -/
+def ankrPoints (d : List Nat) (gid : Nat) : R (Nat × Nat) :=
+  if gid > 0xFFFF then .err .oob else
+  match readAt d 4 4, readAt d 8 4 with
+  | some lo, some gdo =>
+    match resolveOff d lo with
+    | .error e => .err e
+    | .ok sub =>
+      match lookupValue sub 2 gid with
+      | .trap => .trap
+      | .err e => .err e
+      | .ok v =>
+        match checkedAdd gdo v with
+        | none => .err .oob
+        | some full =>
+          if full ≤ d.length then
+            let e := d.drop full
+            match readAt e 0 4 with
+            | none => .err .oob
+            | some n =>
+              match checkedMul n 4 with
+              | none => .err .oob
+              | some bl => if 4 + bl ≤ e.length then .ok (full + 4, n) else .err .oob
+          else .err .oob
+  | _, _ => .trap
+
+/-! ## `feat` — `Feat::find`, `FeatureName` flags -/
+
+/-- `Feat::read`: version (4), `feature_name_count` (`cursor.read()?`), 2 + 4 reserved bytes,
+`feature_name_count * 12` bytes of `FeatureName` records; returns the count -/
+def featRead (d : List Nat) : Option Nat :=
+  match readAt d 4 2 with
+  | none => none
+  | some n =>
+    match checkedMul n 12 with
+    | none => none
+    | some bl => if 12 + bl ≤ d.length then some n else none
+
+/-- `Feat::find(feature)`: `names.binary_search_by(|name| name.feature().cmp(&feature)).ok()?`,
+`names.get(ix)`; the index of the record found -/
+def featFind (d : List Nat) (n feature : Nat) : Option Nat :=
+  match Layout.binarySearchBy n (fun i => Layout.natCmp (beAt d (12 + i * 12) 2) feature) with
+  | .ok ix => if ix < n then some ix else none
+  | .err _ => none
+
+/-- `FeatureName::is_exclusive`: `feature_flags & 0x8000 != 0` -/
+def featExclusive (flags : Nat) : Bool := flags / 32768 % 2 = 1
+
+/-- `FeatureName::default_setting_index`: the low byte when bit `0x4000` is set -/
+def featDefaultIndex (flags : Nat) : Nat := if flags / 16384 % 2 = 1 then flags % 256 else 0
+
+/-! ## `ltag` — `Ltag::tag_indices`, `Ltag::index_for_tag` -/
+
+/-- `Ltag::read`: version, flags, `num_tags` (`cursor.read()?`), `num_tags * 4` bytes of
+`FTStringRange` records; returns `num_tags` -/
+def ltagRead (d : List Nat) : Option Nat :=
+  match readAt d 8 4 with
+  | none => none
+  | some n =>
+    match checkedMul n 4 with
+    | none => none
+    | some bl => if 12 + bl ≤ d.length then some n else none
+
+def isCont (b : Nat) : Bool := decide (0x80 ≤ b ∧ b ≤ 0xBF)
+
+/-- `core::str::from_utf8(bytes).is_ok()`: well-formed UTF-8 (Unicode table 3-7: no overlong forms,
+no surrogates, nothing above U+10FFFF) -/
+def utf8Valid : List Nat → Bool
+  | [] => true
+  | b0 :: rest =>
+    if b0 < 0x80 then utf8Valid rest
+    else if 0xC2 ≤ b0 ∧ b0 ≤ 0xDF then
+      match rest with
+      | b1 :: r => isCont b1 && utf8Valid r
+      | _ => false
+    else if 0xE0 ≤ b0 ∧ b0 ≤ 0xEF then
+      match rest with
+      | b1 :: b2 :: r =>
+        (if b0 = 0xE0 then decide (0xA0 ≤ b1 ∧ b1 ≤ 0xBF)
+         else if b0 = 0xED then decide (0x80 ≤ b1 ∧ b1 ≤ 0x9F)
+         else isCont b1) && isCont b2 && utf8Valid r
+      | _ => false
+    else if 0xF0 ≤ b0 ∧ b0 ≤ 0xF4 then
+      match rest with
+      | b1 :: b2 :: b3 :: r =>
+        (if b0 = 0xF0 then decide (0x90 ≤ b1 ∧ b1 ≤ 0xBF)
+         else if b0 = 0xF4 then decide (0x80 ≤ b1 ∧ b1 ≤ 0x8F)
+         else isCont b1) && isCont b2 && isCont b3 && utf8Valid r
+      | _ => false
+    else false
+termination_by l => l.length
+
+/-- the closure of `tag_indices` on tag range `i`: `start..start + length` (unchecked `usize` add),
+`table_data.get(range)?`, `from_utf8(..).ok()?`; `ok (some (i, start, length))` = yielded,
+`ok none` = filtered out -/
+def ltagItem (d : List Nat) (i : Nat) : R (Option (Nat × Nat × Nat)) :=
+  match readAt d (12 + i * 4) 2, readAt d (12 + i * 4 + 2) 2 with
+  | some off, some len =>
+    if off + len > MAXU then .trap
+    else if off + len ≤ d.length then
+      (if utf8Valid ((d.drop off).take len) then .ok (some (i, off, len)) else .ok none)
+    else .ok none
+  | _, _ => .trap
+
+/-- `ltag.tag_indices().collect()`: `tag_ranges().iter().enumerate().filter_map(..)` over the
+`n = num_tags` records -/
+def ltagLoop (d : List Nat) : List Nat → R (List (Nat × Nat × Nat))
+  | [] => .ok []
+  | i :: is =>
+    match ltagItem d i with
+    | .trap => .trap
+    | .err e => .err e
+    | .ok x =>
+      match ltagLoop d is with
+      | .trap => .trap
+      | .err e => .err e
+      | .ok xs => .ok (match x with | some t => t :: xs | none => xs)
+
+def ltagTags (d : List Nat) (n : Nat) : R (List (Nat × Nat × Nat)) := ltagLoop d (List.range n)
+
+/-- `Ltag::index_for_tag(tag)`: `tag_indices().find(|x| x.1 == tag).map(|x| x.0)` -/
+def ltagIndexFor (d : List Nat) (n : Nat) (tag : List Nat) : R (Option Nat) :=
+  match ltagTags d n with
+  | .trap => .trap
+  | .err e => .err e
+  | .ok xs => .ok ((xs.find? (fun t => (d.drop t.2.1).take t.2.2 == tag)).map (·.1))
 
 end FontVerif.HandAat
